@@ -161,6 +161,9 @@ func (p *Program) lookupType(q string) types.Type {
 		q = q[1:]
 	}
 	var t types.Type
+	if b, ok := types.Universe.Lookup(q).(*types.TypeName); ok && q != "error" {
+		t = b.Type()
+	}
 	switch q {
 	case "int":
 		t = types.Typ[types.Int]
@@ -171,6 +174,9 @@ func (p *Program) lookupType(q string) types.Type {
 	case "error":
 		t = types.Universe.Lookup("error").Type()
 	default:
+		if t != nil {
+			break
+		}
 		i := strings.LastIndex(q, ".")
 		if i < 0 {
 			return nil
